@@ -105,6 +105,12 @@ M = [
  ('inf-bernstein-matrix', 'sampling_method.py', "[1, 1.0/2, 1.0/6, 0, 0]", "[1, 1.0/2, 1.0/8, 0, 0]", ['C15']),
  ('inf-coeff-index', 'sampling_method.py', "        coeff = stage._method.poly_coeff[k * self.M + l]\n", "        coeff = stage._method.poly_coeff[k * self.M]\n", ['C15']),
  ('inf-last-interval-skipped', 'multiple_shooting.py', "                for c, meta, _ in stage._constraints[\"inf\"]:\n                    self.add_inf_constraints(stage, opti, c, k, l, meta)", "                for c, meta, _ in stage._constraints[\"inf\"]:\n                    if k<self.N-1 or self.N==1: self.add_inf_constraints(stage, opti, c, k, l, meta)", ['C15']),
+ # --- C17
+ ('bspline-derivative-scale', 'splines/micro_spline.py', "  scale = d/delta_xi\n", "  scale = (d+1)/delta_xi\n", ['C17']),
+ ('basis-recursion', 'splines/micro_spline.py', "        dbg_ref2 = (kid - xr) * norm\n        basis = MX(knots.numel() - e - 1, N)", "        dbg_ref2 = (kid - xr) * norm * (1 if e<3 else 0.99)\n        basis = MX(knots.numel() - e - 1, N)", ['C17']),
+ ('signal-der-T', 'sampling_method.py', "        return BSplineSignal(bspline_derivative(self.coeff,self.xi,self.degree)/self.T, self.xi, self.degree-1, T=self.T)", "        return BSplineSignal(bspline_derivative(self.coeff,self.xi,self.degree), self.xi, self.degree-1, T=self.T)", ['C17']),
+ ('greville', 'splines/micro_spline.py', "    source = (cs.DM(range(d,0,-1))/(cs.DM.ones(d,1)*d)).nonzeros()", "    source = (cs.DM(range(d,0,-1))/(cs.DM.ones(d,1)*d)).nonzeros()[::-1]", ['C17']),
+ ('spline-time-refine', 'spline_method.py', "            self.time[refine] = ca.reshape(self.t0 + tau_refined*self.T, self.time[refine].shape)", "            pass", ['C17']),
 ]
 
 def main():
